@@ -178,6 +178,19 @@ def build_alphabet(m, ents, rng=None, small=False):
                  ("find", X.meth(L0, "find", s)), ("find", X.meth(A0, "find", s)), ("find", X.meth(P0, "find", s))]
         G.append({"tag": "chain", "chain": True, "es": [[t, e] for t, e in chain]})
         G.append({"tag": "chain", "chain": True, "es": [[t, e] for t, e in reversed(chain)]})
+    # Getters walk the same unfolding as the Finders (and skip the types configured without one): a started or finished
+    # get() must leave the later read-only calls on the same search alone
+    shallow = ["/".join(segs[:k] + ["*"]) for k in (1, 2, 3)] + ["*", "/".join(segs[:1] + ["*", "*"])]
+    GA, GP = X.call("GetFromAll"), X.call("GetFromPaths", cfgs[0])
+    for s in shallow + [star2]:
+        add("get", X.call("list", X.meth(GA, "get", s)))
+        add("get", X.meth(GA, "get_one", s))
+        add("unfold", X.call("unfold_search", s))
+        for Gx in (GA, GP):
+            chain = [("get", X.call("list", X.meth(Gx, "get", s))), ("unfold", X.call("unfold_search", s)),
+                     ("find", X.meth(A0, "find", s)), ("find", X.meth(L0, "find", s)), ("match", X.meth(X.sid(d), "match", s))]
+            G.append({"tag": "chain", "chain": True, "es": [[t, e] for t, e in chain]})
+    add("get", X.call("list", X.meth(GP, "get", star2)))
     for s in (f, d):
         add("find", X.meth(X.sid(s), "exists"))
         add("find", X.meth(X.sid(s), "children"))
